@@ -105,6 +105,16 @@ def build(t, log=None, memo=None):
     if r is not None or t[0] == "int":
         return r
     args = [build(a, log, memo) for a in t[1:]]
+    if t[0] in BIN_INFIX and len(args) > 2:
+        # a written chain `a op b op c` is a sequence of binary constructions: log each real construction step, not the
+        # chain as one n-ary step that never happened
+        r = args[0]
+        for a in args[1:]:
+            r2 = apply_op(t[0], [r, a])
+            if log is not None:
+                log.append((t[0], [r, a], r2))
+            r = r2
+        return r
     r = apply_op(t[0], args)
     if log is not None:
         log.append((t[0], args, r))
